@@ -432,7 +432,85 @@ type cmDeep struct {
 	Z bool
 }
 
+// gogoP / gogoV: structs of the shape generated code has - the gogo-style methods AND the ProtoMessage marker (on the
+// pointer or on the value receiver).  The marker makes the package encode them by reflection like any other struct.
+type gogoPlain struct {
+	A int32
+	B string
+}
+type gogoP gogoPlain
+type gogoV gogoPlain
+
+func (*gogoP) ProtoMessage()                    {}
+func (g gogoP) Size() int                       { return proto.Size(gogoPlain(g)) }
+func (g gogoP) MarshalTo(b []byte) (int, error) { return proto.MarshalTo(b, gogoPlain(g)) }
+func (g *gogoP) Unmarshal(b []byte) error       { return proto.Unmarshal(b, (*gogoPlain)(g)) }
+func (gogoV) ProtoMessage()                     {}
+func (g gogoV) Size() int                       { return proto.Size(gogoPlain(g)) }
+func (g gogoV) MarshalTo(b []byte) (int, error) { return proto.MarshalTo(b, gogoPlain(g)) }
+func (g *gogoV) Unmarshal(b []byte) error       { return proto.Unmarshal(b, (*gogoPlain)(g)) }
+
+type gogoHolder struct {
+	X  int32
+	G  gogoP
+	P  *gogoP
+	L  []gogoP
+	LP []*gogoP
+	M  map[string]gogoP
+	V  gogoV
+	PV *gogoV
+	LV []gogoV
+	Z  string
+}
+
+// c03Generated: values of such types nested in every position: round trip and Size
+func c03Generated(c *Ctx) {
+	vals := []gogoHolder{
+		{},
+		{X: 1, G: gogoP{7, "hi"}, P: &gogoP{8, "p"}, L: []gogoP{{1, "a"}, {}, {0, "c"}}, LP: []*gogoP{{2, "b"}, {}}, M: map[string]gogoP{"k": {3, "m"}, "": {}},
+			V: gogoV{4, "v"}, PV: &gogoV{5, ""}, LV: []gogoV{{6, "x"}, {}}, Z: "z"},
+		{G: gogoP{0, "only b"}, P: &gogoP{}, V: gogoV{9, ""}, PV: &gogoV{}},
+		{G: gogoP{7, "hello"}, L: []gogoP{{7, "hello"}}, M: map[string]gogoP{"hello": {7, "hello"}}},
+	}
+	for i := range vals {
+		v := vals[i]
+		k := protoCase{What: fmt.Sprintf("generated-code types %d", i)}
+		fail := func(api, w, g string) {
+			c.Diverge("C03", api+"(types with gogo-style methods and the ProtoMessage marker)", w, g, "", k)
+		}
+		for _, x := range []any{v, &v} {
+			var b []byte
+			var err error
+			size := -1
+			c.Eval(1)
+			c.Case()
+			if p := protect(func() { b, err = proto.Marshal(x); size = proto.Size(x) }); p != "" || err != nil {
+				fail("proto.Marshal", "nil error", fmt.Sprintf("%v %s", err, p))
+				continue
+			}
+			if size != len(b) {
+				fail("proto.Size", fmt.Sprintf("len(Marshal)=%d", len(b)), fmt.Sprint(size))
+			}
+			var out gogoHolder
+			if p := protect(func() { err = proto.Unmarshal(b, &out) }); p != "" || err != nil {
+				fail("proto.Unmarshal(Marshal(v))", "nil error", fmt.Sprintf("%v %s bytes=%x", err, p, b))
+				continue
+			}
+			w, _ := stdjson.Marshal(v)
+			g, _ := stdjson.Marshal(out)
+			norm := func(s []byte) string { // nil and empty slices / maps, nil and zero pointers to messages are written alike
+				r := strings.NewReplacer(":null", ":Z", ":[]", ":Z", ":{}", ":Z", `:{"A":0,"B":""}`, ":Z")
+				return r.Replace(string(s))
+			}
+			if norm(w) != norm(g) {
+				fail("proto.Unmarshal(Marshal(v))", string(w), string(g)+fmt.Sprintf(" bytes=%x", b))
+			}
+		}
+	}
+}
+
 func c03CompositeMaps(c *Ctx) {
+	c03Generated(c)
 	keys := [][]any{
 		{cmPoint{}, cmPoint{1, "a"}, cmPoint{0, "b"}},
 		{cmDeep{}, cmDeep{cmPoint{2, ""}, true}, cmDeep{cmPoint{}, true}},
@@ -539,7 +617,7 @@ func cmEqual(a, b reflect.Value) bool {
 func c03Replay(c *Ctx, raw stdjson.RawMessage) {
 	var k protoCase
 	if stdjson.Unmarshal(raw, &k) == nil {
-		if strings.HasPrefix(k.What, "composite map") {
+		if strings.HasPrefix(k.What, "composite map") || strings.HasPrefix(k.What, "generated-code types") {
 			c03CompositeMaps(c)
 			return
 		}
@@ -922,11 +1000,16 @@ func c16Vector(c *Ctx, raw stdjson.RawMessage) {
 		c.Case()
 		c16Run(c, protoCase{Shape: v.Shape, Val: sv, Salt: 1})
 	}
-	// a value with marshalling methods of its own as the top-level argument
-	if len(v.Shape) == 1 && v.Shape[0].C == "one" && isBlobKind(v.Shape[0].K) {
+	// a value with marshalling methods of its own, or a scalar, as the top-level argument: there the leaf encoders see
+	// the caller's destination itself, not a window cut to their size by an enclosing message
+	if len(v.Shape) == 1 && v.Shape[0].C == "one" && !isMsgKind(v.Shape[0].K) {
 		for _, ptr := range []bool{false, true} {
 			c.Case()
 			c16Run(c, protoCase{Shape: v.Shape, Val: v.Val, Salt: 2, Ptr: ptr, What: "toplevel"})
+			if !isBlobKind(v.Shape[0].K) {
+				c.Case()
+				c16Run(c, protoCase{Shape: v.Shape, Val: v.Val, Salt: strLenSalt + 124 + r.intn(8), Ptr: ptr, What: "toplevel"})
+			}
 		}
 	}
 	// string lengths that take the enclosing records across the varint boundaries (see strLenSweep)
@@ -1000,8 +1083,9 @@ func c07Total(c *Ctx, k protoCase) {
 	if p := protect(func() { _, _, _, _, _ = proto.Parse(b) }); p != "" {
 		fail("proto.Parse("+k.What+")", "no panic", p)
 	}
+	var serr error
 	if p := protect(func() {
-		proto.Scan(b, func(f proto.FieldNumber, t proto.WireType, v proto.RawValue) (bool, error) {
+		serr = proto.Scan(b, func(f proto.FieldNumber, t proto.WireType, v proto.RawValue) (bool, error) {
 			switch t {
 			case proto.Varint:
 				_ = v.Varint()
@@ -1014,6 +1098,11 @@ func c07Total(c *Ctx, k protoCase) {
 		})
 	}); p != "" {
 		fail("proto.Scan("+k.What+")", "no panic", p)
+		return
+	}
+	// Scan enumerates the top-level fields Unmarshal consumes: what Unmarshal accepts as a whole, Scan walks to the end
+	if err == nil && serr != nil {
+		fail("proto.Scan vs proto.Unmarshal("+k.What+")", "Unmarshal accepts only what Scan can enumerate", fmt.Sprintf("Unmarshal: nil error; Scan: %v; bytes=%x", serr, b))
 	}
 }
 
